@@ -1,4 +1,38 @@
+(* C28 -- property theorems (statements only). *)
 From Coq Require Import ZArith QArith List.
-From OMV Require Import Base.Val C28.Model.
-Theorem C28_placeholder : True. Proof. exact I. Qed.
-Print Assumptions C28_placeholder.
+From OMV Require Import Base.Val C28.Model C28.Proofs.
+Import ListNotations.
+Open Scope Q_scope.
+
+(* ResponseSurface.linearize is the derivative of ResponseSurface.predict: exact second-order expansion
+   predict(x+h) = predict(x) + linearize(x).h + (pure second-order form in h), for every number of
+   inputs, every coefficient vector, every point and every increment. *)
+Theorem C28_rs_linearize_is_derivative : forall betas x h : list Q, length x = length h ->
+  rs_predict betas (addv x h) ==
+  rs_predict betas x + dotq (rs_linearize betas x) h + dotq (quad_terms h) (skipn (S (length x)) betas).
+Proof. exact rs_linearize_is_derivative. Qed.
+Print Assumptions C28_rs_linearize_is_derivative.
+
+(* ResponseSurface reproduces a quadratic, given a certified fit (partial: see level_note). *)
+Theorem C28_rs_reproduces_quadratic_partial : forall (n : nat) (train : list (list Q)) (betas bstar : list Q),
+  unisolvent n train ->
+  (forall x, In x train -> rs_predict betas x == rs_predict bstar x) ->
+  forall x, length x = n -> rs_predict betas x == rs_predict bstar x.
+Proof. exact rs_reproduces_quadratic_partial. Qed.
+Print Assumptions C28_rs_reproduces_quadratic_partial.
+
+(* Distance-weighted nearest neighbours return the training output at a training input. *)
+Theorem C28_nn_weighted_interpolates : forall p ds1 d ds2 vs1 vs2 y tvr tvm,
+  length ds1 = length vs1 -> d == 0 -> Forall nonzero ds1 -> Forall nonzero ds2 -> ~ tvr == 0 ->
+  nn_weighted p (ds1 ++ d :: ds2) (vs1 ++ ((y - tvm) / tvr) :: vs2) tvr tvm == y.
+Proof. exact nn_weighted_training_output. Qed.
+Print Assumptions C28_nn_weighted_interpolates.
+
+(* Kriging with zero nugget interpolates, for any kernel values, given a certified solve R alpha = Y. *)
+Theorem C28_kriging_interpolates : forall (R : list (list Q)) (alpha Yn : list Q) (ymean ystd y : Q) (i : nat),
+  (i < length R)%nat ->
+  nth i (matvec R alpha) 0 == nth i Yn 0 ->
+  ~ ystd == 0 -> nth i Yn 0 == (y - ymean) / ystd ->
+  krig_predict ymean ystd (nth i R []) alpha == y.
+Proof. exact kriging_interpolates. Qed.
+Print Assumptions C28_kriging_interpolates.
